@@ -4,6 +4,7 @@ import PsVerif.Model.AbsC06
 import PsVerif.Model.AbsMk
 import PsVerif.Model.AbsNg
 import PsVerif.Model.AbsAn
+import PsVerif.Model.AbsLv
 /- line-protocol front end for the abstract-engine trace inclusion -/
 namespace PsVerif.Driver
 open PsVerif PsVerif.Gen PsVerif.Model.Abs
@@ -15,6 +16,7 @@ inductive AbsState where
   | mk (sys : Sys Model.AbsMk.F) (S : List (MC Model.AbsMk.F))
   | ng (sys : Sys Model.AbsNg.F) (S : List (MC Model.AbsNg.F))
   | an (sys : Sys Model.AbsAn.F) (S : List (MC Model.AbsAn.F))
+  | lv (sys : Sys Model.AbsLv.F) (S : List (MC Model.AbsLv.F))
 
 def role? (s : String) : Option Role := Role.ofName s
 
@@ -46,6 +48,11 @@ def anF? (s : String) : Option Model.AbsAn.F :=
   | some [a, b, c, d] => some ((((Model.AbsAn.F.init.setAnchorRec a).setKeySent b).setPaidNoAnchor c).setAnchorMoved d)
   | _ => Option.none
 
+def lvF? (s : String) : Option Model.AbsLv.F :=
+  match bits? s with
+  | some [a, b, c] => some (((Model.AbsLv.F.init.setTimerArmed a).setConfWatch b).setCsvWatch c)
+  | _ => Option.none
+
 def tableOf : Role → List Row := Gen.table
 
 def handleAbs (st : AbsState) : List String → Option (AbsState × String)
@@ -65,8 +72,18 @@ def handleAbs (st : AbsState) : List String → Option (AbsState × String)
     let r ← role? role
     let sys := Model.AbsAn.sys (tableOf r)
     pure (.an sys [initMC sys], "ok")
+  | ["abs.reset", "Lv", role] => do
+    let r ← role? role
+    let sys := Model.AbsLv.sys (tableOf r)
+    pure (.lv sys [initMC sys], "ok")
   | ["abs.persist", s, fl] =>
     match st with
+    | .lv sys S => do
+      let s' ← St.ofName (if s == "-" then "" else s)
+      -- `late` is a fact about the chain that the record does not show: both values are tried
+      let f0 ← lvF? fl
+      let S' := obsPersist sys S s' f0 ++ obsPersist sys S s' (f0.setLate true)
+      pure (.lv sys S', if S'.isEmpty then "REJECT" else "ok")
     | .an sys S => do
       let s' ← St.ofName (if s == "-" then "" else s)
       let S' := obsPersist sys S s' (← anF? fl)
@@ -86,6 +103,9 @@ def handleAbs (st : AbsState) : List String → Option (AbsState × String)
     | .none => some (st, "no-abstraction")
   | ["abs.crash"] =>
     match st with
+    | .lv sys S =>
+      let S' := obsCrash sys S
+      some (.lv sys S', if S'.isEmpty then "REJECT" else "ok")
     | .an sys S =>
       let S' := obsCrash sys S
       some (.an sys S', if S'.isEmpty then "REJECT" else "ok")
